@@ -252,7 +252,7 @@ func c01Valid(n int, edges map[[2]int]bool, interested []bool) bool {
 }
 
 func TestVerifC01Deliver(t *testing.T) {
-	vRun(t, "C01.deliver", vCount(400, 6000), func(c *vCase) {
+	vRun(t, "C01.deliver", vCount(400, 25000), func(c *vCase) {
 		c.Bubble(func() {
 			cn := &c01Net{c: c, n: newVNet(c), edges: map[[2]int]bool{}, hb: time.Second}
 			t0 := time.Now()
